@@ -359,6 +359,12 @@ int main(void) {
         for (k = 0; k <= ZSTD_STRATEGY_MAX; k++) printf(" %zu", attachDictSizeCutoffs[k]);
         printf(" %d %d %d %d\n", (int)ZSTD_dictDefaultAttach, (int)ZSTD_dictForceAttach, (int)ZSTD_dictForceCopy, (int)ZSTD_dictForceLoad);
     }
+    {   /* ZSTD_minGain on a grid (Det/RawFallback.minGain) */
+        static const size_t gs[] = { 0, 1, 37, 63, 64, 65, 127, 128, 129, 575, 576, 1000, 4096, 65536, 131072 };
+        size_t i; int st;
+        for (i = 0; i < sizeof(gs) / sizeof(gs[0]); i++) for (st = 1; st <= ZSTD_STRATEGY_MAX; st++)
+            printf("M %zu %d %zu\n", gs[i], st, ZSTD_minGain(gs[i], (ZSTD_strategy)st));
+    }
     while (fscanf(in, "%63s", cmd) == 1) {
         if (!strcmp(cmd, "blobfile")) {
             char path[1024]; FILE* f; long n;
